@@ -56,6 +56,7 @@ pub fn number_from_usize(x: usize) -> (r: SimpleNumber)
 //@@EXTRACT enum data/src/data/mod.rs SimpleData derive=none nodefaults=1
 //@@EXTRACT struct data/src/data/mod.rs SimpleDataList pubfields=1 nodefaults=1
 //@@EXTRACT struct data/src/instruction.rs SimpleInstruction pubfields=1 derive=Clone,Copy
+//@@EXTRACT struct data/src/data/iterators.rs DataIndexIterator pubfields=1
 //@@EXTRACT struct data/src/simple.rs SimpleGarnishData pubfields=1 nodefaults=1 subst=SimpleResolver<T,%20A>=>VerifHostFn;;SimpleOpHandler<T,%20A>=>VerifHostFn
 
 /// the Garnish type of a cell (what get_data_type reports)
@@ -120,6 +121,128 @@ impl<T: SimpleDataType, A> SimpleGarnishData<T, A> {
     }
     /// the data table
     pub open spec fn cells(&self) -> Seq<SimpleData<T>> { self.data.list@ }
+}
+
+/// mirror of data/src/data/mod.rs::UNIT_INDEX (the unit value lives at address 0)
+pub const UNIT_INDEX: usize = 0;
+
+/// Stands for the Slice arm of simple.rs::collect_concatenation_indices (iterator adapters `skip/take/map/for_each`, rule R8-cut).
+/// Assumed: reads the data object only; what it appends to `items` is not specified (the walk is outside the covered cases then).
+#[verifier::external_body]
+pub fn verif_collect_slice<T: SimpleDataType, A>(this: &SimpleGarnishData<T, A>, list: usize, range: usize, items: &mut Vec<usize>) -> (r: Result<(), DataError>)
+{ unimplemented!() }
+
+/// the extents select a whole sequence: `start` is `zero()` and `end` is `max_value()` (what equality and the casts pass)
+pub uninterp spec fn selects_everything(e: VerifExtents) -> bool;
+/// stands for `Extents<SimpleNumber>` (traits/src/data.rs; its bounds need PartialOrd/Debug impls the extract does not carry) - rule R8
+#[verifier::external_body]
+pub struct VerifExtents { _p: u8 }
+
+impl DataIndexIterator {
+    /// the items the iterator has still to yield, in order (unit V1's `rem`)
+    pub open spec fn rem(&self) -> Seq<usize> {
+        if self.current <= self.items@.len() { self.items@.skip(self.current as int) } else { Seq::empty() }
+    }
+}
+
+// ---------------------------------------------------------------------------------
+// C11 / C16: the flat item sequence of a concatenation (the same reading as unit V1's `walk`, over Simple's cells;
+// slices among the parts and addresses outside the table are not covered: the function is `None` there)
+// ---------------------------------------------------------------------------------
+pub open spec fn cat_opt<X>(v: Seq<X>, t: Option<Seq<X>>) -> Option<Seq<X>> {
+    match t { Some(x) => Some(v + x), None => None }
+}
+
+pub open spec fn walk3<T: SimpleDataType>(cells: Seq<SimpleData<T>>, work: Seq<usize>, fuel: nat) -> Option<Seq<usize>>
+    decreases fuel
+{
+    if work.len() == 0 { Some(Seq::empty()) }
+    else if fuel == 0 { None }
+    else {
+        let r = work.last(); let rest = work.drop_last();
+        if r >= cells.len() { None }
+        else { match cells[r as int] {
+            SimpleData::Concatenation(l, rr) => walk3(cells, rest.push(rr).push(l), (fuel - 1) as nat),
+            SimpleData::List(items, _) => cat_opt(items@, walk3(cells, rest, (fuel - 1) as nat)),
+            SimpleData::Slice(_, _) => None,
+            _ => cat_opt(seq![r], walk3(cells, rest, (fuel - 1) as nat)),
+        } }
+    }
+}
+
+pub open spec fn seq2(a: usize, b: usize) -> Seq<usize> { seq![a, b] }
+
+/// loop invariant of collect_concatenation_indices: after `k` steps `vis` has been collected and `work` is pending
+pub open spec fn walked3<T: SimpleDataType>(cells: Seq<SimpleData<T>>, w0: Seq<usize>, vis: Seq<usize>, work: Seq<usize>, k: nat) -> bool {
+    (forall|f: nat| f < k ==> (#[trigger] walk3(cells, w0, f)) is None)
+    && (forall|f: nat| f >= k ==> #[trigger] walk3(cells, w0, f) == cat_opt(vis, walk3(cells, work, (f - k) as nat)))
+}
+/// the walk has met a part the specification does not cover
+pub open spec fn dead3<T: SimpleDataType>(cells: Seq<SimpleData<T>>, w0: Seq<usize>) -> bool {
+    forall|f: nat| (#[trigger] walk3(cells, w0, f)) is None
+}
+
+pub proof fn lemma_walked3_init<T: SimpleDataType>(cells: Seq<SimpleData<T>>, w0: Seq<usize>)
+    ensures walked3(cells, w0, Seq::empty(), w0, 0)
+{
+    assert forall|f: nat| f >= 0 implies #[trigger] walk3(cells, w0, f) == cat_opt(Seq::<usize>::empty(), walk3(cells, w0, (f - 0) as nat)) by {
+        match walk3(cells, w0, f) { Some(x) => { assert(Seq::<usize>::empty() + x =~= x); } None => {} }
+    }
+}
+
+pub proof fn lemma_walked3_concat<T: SimpleDataType>(cells: Seq<SimpleData<T>>, w0: Seq<usize>, vis: Seq<usize>, wb: Seq<usize>, k: nat, l: usize, r: usize)
+    requires walked3(cells, w0, vis, wb, k), wb.len() > 0, wb.last() < cells.len(), cells[wb.last() as int] matches SimpleData::Concatenation(a, b) && a == l && b == r,
+    ensures walked3(cells, w0, vis, wb.drop_last().push(r).push(l), k + 1)
+{
+    let wn = wb.drop_last().push(r).push(l);
+    assert forall|f: nat| f >= k + 1 implies #[trigger] walk3(cells, w0, f) == cat_opt(vis, walk3(cells, wn, (f - (k + 1)) as nat)) by {
+        assert(walk3(cells, w0, f) == cat_opt(vis, walk3(cells, wb, (f - k) as nat)));
+        assert(walk3(cells, wb, (f - k) as nat) == walk3(cells, wn, (f - k - 1) as nat));
+    }
+    assert forall|f: nat| f < k + 1 implies (#[trigger] walk3(cells, w0, f)) is None by {
+        if f == k { assert(walk3(cells, w0, f) == cat_opt(vis, walk3(cells, wb, 0))); }
+    }
+}
+
+pub proof fn lemma_walked3_value<T: SimpleDataType>(cells: Seq<SimpleData<T>>, w0: Seq<usize>, vis: Seq<usize>, wb: Seq<usize>, k: nat, h: Seq<usize>)
+    requires walked3(cells, w0, vis, wb, k), wb.len() > 0, wb.last() < cells.len(),
+        !(cells[wb.last() as int] is Concatenation), !(cells[wb.last() as int] is Slice),
+        h == (match cells[wb.last() as int] { SimpleData::List(items, _) => items@, _ => seq![wb.last()] }),
+    ensures walked3(cells, w0, vis + h, wb.drop_last(), k + 1)
+{
+    let wn = wb.drop_last();
+    assert forall|f: nat| f >= k + 1 implies #[trigger] walk3(cells, w0, f) == cat_opt(vis + h, walk3(cells, wn, (f - (k + 1)) as nat)) by {
+        assert(walk3(cells, w0, f) == cat_opt(vis, walk3(cells, wb, (f - k) as nat)));
+        let t = walk3(cells, wn, (f - k - 1) as nat);
+        assert(walk3(cells, wb, (f - k) as nat) == cat_opt(h, t));
+        match t { Some(x) => { assert(vis + (h + x) =~= (vis + h) + x); } None => {} }
+    }
+    assert forall|f: nat| f < k + 1 implies (#[trigger] walk3(cells, w0, f)) is None by {
+        if f == k { assert(walk3(cells, w0, f) == cat_opt(vis, walk3(cells, wb, 0))); }
+    }
+}
+
+pub proof fn lemma_walked3_dead<T: SimpleDataType>(cells: Seq<SimpleData<T>>, w0: Seq<usize>, vis: Seq<usize>, wb: Seq<usize>, k: nat)
+    requires walked3(cells, w0, vis, wb, k), wb.len() > 0, wb.last() >= cells.len() || cells[wb.last() as int] is Slice,
+    ensures dead3(cells, w0)
+{
+    assert forall|f: nat| (#[trigger] walk3(cells, w0, f)) is None by {
+        if f >= k {
+            assert(walk3(cells, w0, f) == cat_opt(vis, walk3(cells, wb, (f - k) as nat)));
+            assert(walk3(cells, wb, (f - k) as nat) is None);
+        }
+    }
+}
+
+pub proof fn lemma_walked3_done<T: SimpleDataType>(cells: Seq<SimpleData<T>>, w0: Seq<usize>, vis: Seq<usize>, k: nat, fuel: nat, flat: Seq<usize>)
+    requires walked3(cells, w0, vis, Seq::empty(), k), walk3(cells, w0, fuel) == Some(flat),
+    ensures flat == vis,
+{
+    if fuel < k { assert(walk3(cells, w0, fuel) is None); }
+    else {
+        assert(walk3(cells, w0, fuel) == cat_opt(vis, walk3(cells, Seq::<usize>::empty(), (fuel - k) as nat)));
+        assert(vis + Seq::<usize>::empty() =~= vis);
+    }
 }
 
 } // verus!
